@@ -213,11 +213,19 @@ func runProp(t *testing.T, ps *propSpec) {
 		if err := vkit.LoadJSON(f, &rf); err != nil || rf.Script == nil {
 			t.Fatalf("bad regress file %s: %v", f, err)
 		}
-		res := runCase(t, rf.Script, false)
-		r.Label("regress")
-		account(rf.Script, res, "")
-		if kind, msg := judge(r, ps.id, res); kind != "" {
-			r.Violate(kind, "regress "+f+": "+msg, mkReplay(rf.Script, res))
+		reps := 1
+		if strings.Contains(f, "sched-") {
+			reps = 6 // the outcome depends on which goroutine runs first at one virtual instant
+		}
+		for i := 0; i < reps; i++ {
+			res := runCase(t, rf.Script, false)
+			r.Label("regress")
+			account(rf.Script, res, "")
+			if kind, msg := judge(r, ps.id, res); kind != "" {
+				r.Violate(kind, "regress "+f+": "+msg, mkReplay(rf.Script, res))
+
+				break
+			}
 		}
 	}
 	if r.Violations() > 0 {
